@@ -6,6 +6,7 @@ import (
 	"encoding/binary"
 	"encoding/pem"
 	"fmt"
+	"hash/crc32"
 	"os"
 	"path/filepath"
 	"strings"
@@ -28,14 +29,18 @@ func errCls(err error) string {
 func init() {
 	// decoder entry points for firmware-variable contents and key files (worker side)
 	workerOps["sigdb.read"] = func(a map[string]string) (string, string) {
-		db, err := signature.ReadSignatureDatabase(bytes.NewReader(unhx(a["b"])))
+		r, done := streamOf(a["reader"], unhx(a["b"]))
+		defer done()
+		db, err := signature.ReadSignatureDatabase(r)
 		if err == nil {
 			db.Bytes()
 		}
 		return errCls(err), ""
 	}
 	workerOps["siglist.read"] = func(a map[string]string) (string, string) {
-		l, err := signature.ReadSignatureList(bytes.NewReader(unhx(a["b"])))
+		r, done := streamOf(a["reader"], unhx(a["b"]))
+		defer done()
+		l, err := signature.ReadSignatureList(r)
 		if err == nil && l != nil {
 			l.Bytes()
 		}
@@ -48,11 +53,15 @@ func init() {
 			size = binary.LittleEndian.Uint32(b)
 			b = b[4:]
 		}
-		_, err := signature.ReadSignatureData(bytes.NewReader(b), size)
+		r, done := streamOf(a["reader"], b)
+		defer done()
+		_, err := signature.ReadSignatureData(r, size)
 		return errCls(err), ""
 	}
 	workerOps["auth.read"] = func(a map[string]string) (string, string) {
-		d, err := signature.ReadEFIVariableAuthencation2(bytes.NewReader(unhx(a["b"])))
+		r, done := streamOf(a["reader"], unhx(a["b"]))
+		defer done()
+		d, err := signature.ReadEFIVariableAuthencation2(r)
 		if err == nil {
 			var m bytes.Buffer
 			d.Marshal(&m)
@@ -60,11 +69,15 @@ func init() {
 		return errCls(err), ""
 	}
 	workerOps["wincert.read"] = func(a map[string]string) (string, string) {
-		_, err := signature.ReadWinCertificate(bytes.NewReader(unhx(a["b"])))
+		r, done := streamOf(a["reader"], unhx(a["b"]))
+		defer done()
+		_, err := signature.ReadWinCertificate(r)
 		return errCls(err), ""
 	}
 	workerOps["wincertguid.read"] = func(a map[string]string) (string, string) {
-		_, err := signature.ReadWinCertificateUEFIGUID(bytes.NewReader(unhx(a["b"])))
+		r, done := streamOf(a["reader"], unhx(a["b"]))
+		defer done()
+		_, err := signature.ReadWinCertificateUEFIGUID(r)
 		return errCls(err), ""
 	}
 	workerOps["loadoption"] = func(a map[string]string) (string, string) {
@@ -78,7 +91,9 @@ func init() {
 		return errCls(err), ""
 	}
 	workerOps["devicepath"] = func(a map[string]string) (string, string) {
-		ps, err := device.ParseDevicePath(bytes.NewReader(unhx(a["b"])))
+		r, done := streamOf(a["reader"], unhx(a["b"]))
+		defer done()
+		ps, err := device.ParseDevicePath(r)
 		if err == nil {
 			for _, p := range ps {
 				p.Format()
@@ -98,13 +113,17 @@ func init() {
 		return bootOrderDecode(unhx(a["b"])), ""
 	}
 	workerOps["supportedsigs"] = func(a map[string]string) (string, string) {
-		_, err := signature.GetSupportedSignatures(bytes.NewReader(unhx(a["b"])))
+		r, done := streamOf(a["reader"], unhx(a["b"]))
+		defer done()
+		_, err := signature.GetSupportedSignatures(r)
 		return errCls(err), ""
 	}
 	workerOps["efivars.parse"] = func(a map[string]string) (string, string) {
 		b := unhx(a["b"])
 		fw := fswrapper.NewMemoryWrapper()
-		_, _, err := fw.ParseEfivars(bytes.NewReader(b), len(b))
+		r, done := streamOf(a["reader"], b)
+		defer done()
+		_, _, err := fw.ParseEfivars(r, len(b))
 		return errCls(err), ""
 	}
 	workerOps["guid.parse"] = func(a map[string]string) (string, string) {
@@ -168,6 +187,10 @@ func c14ModelClass(c *Ctx, ep string, b []byte) string {
 }
 
 var c14Worker *Worker
+
+// entry points that take an io.Reader (the others take a *bytes.Buffer, a []byte or a string)
+var c14StreamEps = map[string]bool{"sigdb.read": true, "siglist.read": true, "sigdata.read": true, "auth.read": true, "wincert.read": true,
+	"wincertguid.read": true, "devicepath": true, "supportedsigs": true, "efivars.parse": true}
 
 // allocation budget: proportional to the input plus a constant for fixed-size buffers and the
 // runtime's own bookkeeping (error values, reflection in encoding/binary)
@@ -316,12 +339,17 @@ func c14Eval(c *Ctx, cs Case) {
 	b := unhx(cs.S("b"))
 	if c14Worker == nil {
 		c14Worker = c.NewWorker(3<<20, "GOMEMLIMIT=2GiB")
+		c14Worker.MaxTimeouts = 3 // a library that hangs on every input costs 3 timeouts, not one per input
 	}
 	if cs.S("gen") != "" {
 		c14ScaleEval(c, cs)
 		return
 	}
-	res := c14Worker.Do(ep, map[string]string{"b": hx(b)}, 10*time.Second)
+	res := c14Worker.Do(ep, map[string]string{"b": hx(b), "reader": cs.S("reader")}, 10*time.Second)
+	if res.Class == "not-run" { // the worker gave up after repeated timeouts, which are reported
+		c.Class("decode/" + ep + "/not-run-after-timeouts")
+		return
+	}
 	c.Count(cs.Key(), len(b) > 0, "decode/"+ep+"/"+cs.S("class")+"/"+res.Class)
 	if len(b) < 80 {
 		c.Sample(cs)
@@ -349,7 +377,7 @@ func c14Eval(c *Ctx, cs Case) {
 	case "oom":
 		fail(fmt.Sprintf("decoding a %d-byte input ran out of memory (allocation unrelated to the input size)", len(b)), "c14.alloc/"+ep)
 	case "timeout":
-		fail("decoding did not finish", "")
+		fail(fmt.Sprintf("decoding did not finish: no answer %d ms after a %d-byte input was handed over, the worker was killed", res.Ms, len(b)), "c14.hang/"+ep)
 	}
 	if m := c14ModelClass(c, ep, b); m != "" {
 		c.Trace()
@@ -397,7 +425,14 @@ func c14Gen(c *Ctx) {
 	}()
 	emit := func(ep, class, site string, b []byte) {
 		if c.NFailures() < 40 {
-			c14Eval(c, Case{"op": "decode", "ep": ep, "class": class, "site": site, "b": hx(b)})
+			cs := Case{"op": "decode", "ep": ep, "class": class, "site": site, "b": hx(b)}
+			if c14StreamEps[ep] {
+				// the decoders that take an io.Reader get the input through one of the reader kinds callers
+				// use; the kind is a function of the case, so that replays are exact, and the size-field
+				// sweeps (same length, different values) spread over all kinds
+				cs["reader"] = streamKinds[int(crc32.ChecksumIEEE([]byte(ep+class+cs.S("b")))%uint32(len(streamKinds)))]
+			}
+			c14Eval(c, cs)
 		}
 	}
 	u := newC09Universe(c)
@@ -645,7 +680,7 @@ func c14Gen(c *Ctx) {
 
 func init() {
 	register("C14", &PropDef{
-		Rule:   "17 decoder entry points (ReadSignatureDatabase/List/Data, ReadEFIVariableAuthencation2, ReadWinCertificate(UEFIGUID), EFILoadOption.Unmarshal + Format, ParseDevicePath + Format, ParseUtf16Var, Efistring, boot order, GetSupportedSignatures, ParseEfivars, StringToGUID, BytesToGUID, ReadKey, ReadCert) run in a sandboxed worker process (address-space limit, per-input timeout, runtime.MemStats.TotalAlloc delta). Inputs: every size field of lists / descriptors / certificates swept over {0,1,7,8,15,16,17,23,24,27,28,29,2^16,2^24,2^31,2^32-1,...}, consistent headers promising one 2 GiB signature or 2^12..2^26 signatures of the list's own size, every truncation point, captured and generated load options cut everywhere / without end node / byte-mutated, every device-path (type, subtype) with 0..38 bytes of data and with a declared node Length of 0..3 (below the 4-byte node header) / exact / 0xffff, every node Length of the captured and generated load options set to 0..3, +-1 and 0xffff, every partition-format byte, size scaling (one signature list of 4096 and of 20000 SHA-256 entries [thorough: 16384 / 80000], 1000 / 5000 certificate-sized entries in one list, each also split into lists of 64 / 16 entries of the same total size; a boot order of 30000 entries, 20000 GUIDs, a device path of 20000 nodes, a string of 200000 characters: time <= 0.5 s + 1 µs/byte, memory budget, and one-list time <= 8 x split time + 0.1 s, best of 3 runs), UTF-16 edge cases, random short inputs, PEM material cut and mutated, files with several PEM blocks (key+certificate in both orders, unknown block types, headers, text around the blocks, empty blocks). Non-trivial: non-empty input; distinct = distinct (entry point, input). Static part: the call-graph certificate (see the Lean obligations).",
+		Rule:   "17 decoder entry points (ReadSignatureDatabase/List/Data, ReadEFIVariableAuthencation2, ReadWinCertificate(UEFIGUID), EFILoadOption.Unmarshal + Format, ParseDevicePath + Format, ParseUtf16Var, Efistring, boot order, GetSupportedSignatures, ParseEfivars, StringToGUID, BytesToGUID, ReadKey, ReadCert) run in a sandboxed worker process (address-space limit, per-input timeout, runtime.MemStats.TotalAlloc delta). The 9 entry points that take an io.Reader get every input through one of 8 reader kinds chosen by a hash of the case (bytes.Reader, bytes.Buffer, bufio.Reader, io.SectionReader, an open os.File, io.Pipe, a reader with no method but Read, a one-byte reader). Inputs: every size field of lists / descriptors / certificates swept over {0,1,7,8,15,16,17,23,24,27,28,29,2^16,2^24,2^31,2^32-1,...}, consistent headers promising one 2 GiB signature or 2^12..2^26 signatures of the list's own size, every truncation point, captured and generated load options cut everywhere / without end node / byte-mutated, every device-path (type, subtype) with 0..38 bytes of data and with a declared node Length of 0..3 (below the 4-byte node header) / exact / 0xffff, every node Length of the captured and generated load options set to 0..3, +-1 and 0xffff, every partition-format byte, size scaling (one signature list of 4096 and of 20000 SHA-256 entries [thorough: 16384 / 80000], 1000 / 5000 certificate-sized entries in one list, each also split into lists of 64 / 16 entries of the same total size; a boot order of 30000 entries, 20000 GUIDs, a device path of 20000 nodes, a string of 200000 characters: time <= 0.5 s + 1 µs/byte, memory budget, and one-list time <= 8 x split time + 0.1 s, best of 3 runs), UTF-16 edge cases, random short inputs, PEM material cut and mutated, files with several PEM blocks (key+certificate in both orders, unknown block types, headers, text around the blocks, empty blocks). Non-trivial: non-empty input; distinct = distinct (entry point, input). Static part: the call-graph certificate (see the Lean obligations).",
 		Assume: []string{"allocation budget 64 bytes per input byte + 2 MiB; time limit 3 s per input; for the large regular inputs 0.5 s + 1 µs per byte and at most 8 x the time of the same entries split into short lists + 0.1 s", "wall-clock time and resident memory are runtime facts measured on the sampled inputs only"},
 		Eval:   c14Eval, Gen: c14Gen,
 	})
